@@ -20,7 +20,7 @@
    of the tree is argued in DESIGN 5.1; the bitfield part is C08_replay_exact); the composition with
    Hypercore::new over all four stores is decided on every run by tools/c02.py, which recovers every crash
    point of every generated history on the crate and on the model under the before-or-after oracle. *)
-From HC Require SrcOrder OrderTie.
+From HC Require SrcOrder OrderTie OrderTieStorage.
 From HC Require Import SoundCoreLib SoundCore ReplicaDisk1 ReplicaDisk2 ReplicaDisk3 ReplicaDisk4.
 From HC Require Import ClearRefine Unified1 Unified3 CrashClear1 CrashClear2 CrashClear3 CrashClear4.
 From HC Require Import Base NMap Codec CodecFacts Crypto Storage Bitfield Oplog OplogFacts StorageFacts Crash.
@@ -679,12 +679,12 @@ Proof. exact reopen_RDisk. Qed.
    mutating calls (data write, oplog entry = commit point, in-memory commits, checkpoint, events; bitfield, tree, oplog inside a
    checkpoint) is the order the model implements and the theorems above are about; None (function restructured) is trivially true. *)
 Theorem C02_source_step_order :
-  OrderTie.tied_order SrcOrder.src_order_append_batch OrderTie.model_order_append /\
-  OrderTie.tied_order SrcOrder.src_order_clear OrderTie.model_order_clear /\
-  OrderTie.tied_order SrcOrder.src_order_verify_and_apply_proof OrderTie.model_order_apply /\
-  OrderTie.tied_order SrcOrder.src_order_make_read_only OrderTie.model_order_read_only /\
-  OrderTie.tied_order SrcOrder.src_order_flush_bitfield_and_tree_and_oplog OrderTie.model_order_flush.
-Proof. exact OrderTie.source_order_is_the_models. Qed.
+  OrderTie.tied_order (option_map OrderTie.storage_steps SrcOrder.src_order_append_batch) (OrderTie.storage_steps OrderTie.model_order_append) /\
+  OrderTie.tied_order (option_map OrderTie.storage_steps SrcOrder.src_order_clear) (OrderTie.storage_steps OrderTie.model_order_clear) /\
+  OrderTie.tied_order (option_map OrderTie.storage_steps SrcOrder.src_order_verify_and_apply_proof) (OrderTie.storage_steps OrderTie.model_order_apply) /\
+  OrderTie.tied_order (option_map OrderTie.storage_steps SrcOrder.src_order_make_read_only) (OrderTie.storage_steps OrderTie.model_order_read_only) /\
+  OrderTie.tied_order (option_map OrderTie.storage_steps SrcOrder.src_order_flush_bitfield_and_tree_and_oplog) (OrderTie.storage_steps OrderTie.model_order_flush).
+Proof. exact OrderTieStorage.source_storage_order_is_the_models. Qed.
 
 Print Assumptions C02_stable_state_reopens.
 Print Assumptions C02_append_every_cut.
